@@ -531,7 +531,7 @@ package mcp
 //@   ensures[C04 delete-ends-the-session] h.enableSession && old(sidIn(r)) != "" && old(live(sidIn(r))) ==> status(w) == 200 && !live(old(sidIn(r))) && (forall k string :: k != old(sidIn(r)) ==> live(k) == old(live(k)))
 //@ func httpServerHandler.handleGet
 //@   requires status(w) == 0
-//@   modifies *, status(w), hval, cancels
+//@   modifies *, status(w), hval, cancels, ssewrites
 //@   ensures[C03,C06 every-get-gets-a-status] status(w) != 0
 //@   ensures[C04 listening-streams-refused-when-disabled-or-stateless] (!h.enableGetSSE || h.isStateless) ==> status(w) == 405
 //@   ensures[C04 listening-stream-without-session-id-is-400] h.enableGetSSE && !h.isStateless && old(sidIn(r)) == "" ==> status(w) == 400
@@ -700,7 +700,7 @@ package mcp
 //@ ghost stable newsessions int
 //@ func newSession
 //@   counted newsessions
-//@   modifies *, newsessions
+//@   modifies *, newsessions, randreads
 //@   ensures !isnil(result)
 //@
 //@ func httpServerHandler.handlePost
@@ -1644,4 +1644,164 @@ package mcp
 // drawn from the one server-wide counter (two sessions can never have the same id in flight)
 //@ func SSEServer.ListRoots
 //@   before call SendRequest#1 assert[C05,C01 the-request-id-is-drawn-from-the-server-wide-counter] arg3 != nil && arg3.ID == asany(int64(s.requestID)) && s.requestID == old(s.requestID) + 1 && arg2 == sessionID
+//@
+// ---- C01 — stdio client: an answer, success or error, is handed to the call registered under the answer's own id
+// (the id as int64, whether it was decoded as int64, float64 or int)
+//@ func stdioClientTransport.handleResponse
+//@   before call send#1 assert[C01 an-answer-goes-to-the-call-registered-under-its-id] atlock(reqID in t.pendingRequests) && sendch == atlock(t.pendingRequests[reqID])
+//@   before call send#1 assert[C01 the-table-is-searched-under-the-answers-id] (istype(response.ID, int64) ==> reqID == response.ID.(int64)) && (istype(response.ID, float64) && response.ID.(float64) >= -9007199254740992.0 && response.ID.(float64) <= 9007199254740992.0 ==> reqID == trunc(response.ID.(float64)))
+//@   before call send#2 assert[C01 an-answer-goes-to-the-call-registered-under-its-id] atlock(reqID in t.pendingRequests) && sendch == atlock(t.pendingRequests[reqID])
+//@   before call send#2 assert[C01 the-table-is-searched-under-the-answers-id] (istype(response.ID, int64) ==> reqID == response.ID.(int64)) && (istype(response.ID, float64) && response.ID.(float64) >= -9007199254740992.0 && response.ID.(float64) <= 9007199254740992.0 ==> reqID == trunc(response.ID.(float64)))
+//@ func stdioClientTransport.handleErrorResponse
+//@   before call send#1 assert[C01 an-error-answer-goes-to-the-call-registered-under-its-id] atlock(reqID in t.pendingRequests) && sendch == atlock(t.pendingRequests[reqID])
+//@   before call send#1 assert[C01 the-table-is-searched-under-the-answers-id] (istype(errorResp.ID, int64) ==> reqID == errorResp.ID.(int64)) && (istype(errorResp.ID, float64) && errorResp.ID.(float64) >= -9007199254740992.0 && errorResp.ID.(float64) <= 9007199254740992.0 ==> reqID == trunc(errorResp.ID.(float64)))
+//@
+// ---- C03 / C14 / C01 — legacy SSE: what the wrapper encodes is a 2.0 envelope with the request's id and either the
+// handler's result or -32603 with the handler error's text
+//@ func SSEServer.sendSuccessResponse
+//@   before call Marshal#1 assert[C03,C14,C01 the-success-envelope-carries-the-request-id-and-the-result] istype(arg0, *JSONRPCResponse) && arg0.(*JSONRPCResponse) != nil && arg0.(*JSONRPCResponse).JSONRPC == "2.0" && arg0.(*JSONRPCResponse).ID == requestID && arg0.(*JSONRPCResponse).Result == result
+//@   before call send#1 assert[C05,C01 the-answer-is-queued-for-the-requests-session] sendch == session.eventQueue
+//@ func SSEServer.handleRequestError
+//@   before call Marshal#1 assert[C03,C14,C01 a-handler-error-becomes-internal-error-with-the-request-id-and-the-errors-text] istype(arg0, *JSONRPCError) && arg0.(*JSONRPCError) != nil && arg0.(*JSONRPCError).JSONRPC == "2.0" && arg0.(*JSONRPCError).ID == requestID && arg0.(*JSONRPCError).Error.Code == ErrCodeInternal && arg0.(*JSONRPCError).Error.Message == err.Error()
+//@   before call send#1 assert[C05,C01 the-answer-is-queued-for-the-requests-session] sendch == session.eventQueue
+//@
+// ---- eighth measurement round (ids -9): general facts behind the misses ----
+// C17 — the retry sequence of a call runs under the caller's own context (cancelling it ends the sequence at once)
+// and with the configured policy; each attempt is made with that context too
+//@ func sseClientTransport.sendRequest
+//@   before call Execute#1 assert[C17 the-retry-sequence-runs-under-the-callers-context-with-the-configured-policy] arg0 == ctx && arg2 == t.retryConfig
+//@ func sseClientTransport.sendRequest$1
+//@   before call sendRequestInternal#1 assert[C17 every-attempt-is-made-with-the-callers-context-and-request] arg1 == ctx && arg2 == req
+//@ func streamableHTTPClientTransport.sendRequest
+//@   before call Execute#1 assert[C17 the-retry-sequence-runs-under-the-callers-context-with-the-configured-policy] arg0 == ctx && arg2 == t.retryConfig
+//@
+// the policy a transport retries with is always a clamped one: only Validate's result is ever installed
+//@ type Client
+//@   invariant[C17] self.retryConfig == nil || valid(*self.retryConfig)
+//@ type sseClientTransport
+//@   invariant[C17] self.retryConfig == nil || valid(*self.retryConfig)
+//@ type streamableHTTPClientTransport
+//@   invariant[C17] self.retryConfig == nil || valid(*self.retryConfig)
+//@ func transport.setRetryConfig
+//@   requires[C17 only-a-clamped-policy-is-installed] config == nil || valid(*config)
+//@ func sseClientTransport.setRetryConfig
+//@   callers-checked C17
+//@   requires[C17 only-a-clamped-policy-is-installed] config == nil || valid(*config)
+//@ func streamableHTTPClientTransport.setRetryConfig
+//@   callers-checked C17
+//@   requires[C17 only-a-clamped-policy-is-installed] config == nil || valid(*config)
+//@
+// C04 — a session is created only for an initialize *request* (a message with an id), never for a notification or
+// an answer that happens to carry the method name
+//@ func httpServerHandler.handlePost
+//@   before call createSession#0 assert[C04 a-session-is-created-only-for-an-initialize-request] base.Method == "initialize" && !isnil(base.ID)
+//@
+// C12 — a call looks its tool, prompt or resource up once: existence check and handler come from one critical section
+// (two lookups would let an unregister slip in between)
+//@ func toolManager.handleCallTool
+//@   ensures[C12 the-registry-is-consulted-in-one-critical-section] lockops <= old(lockops) + 1
+//@ func promptManager.handleGetPrompt
+//@   ensures[C12 the-registry-is-consulted-in-one-critical-section] lockops <= old(lockops) + 1
+//@ func resourceManager.handleReadResource
+//@   ensures[C12 the-registry-is-consulted-in-one-critical-section] lockops <= old(lockops) + 1
+//@
+// C03 / C02 — the members the protocol requires are always on the wire: their struct tags carry no omitempty (an
+// empty text, an empty list or a zero id would otherwise silently disappear from the message)
+//@ type JSONRPCRequest
+//@   wire[C03] JSONRPC as jsonrpc
+//@ type JSONRPCResponse
+//@   wire[C03,C01] JSONRPC as jsonrpc, ID as id
+//@ type JSONRPCError
+//@   wire[C03,C01] JSONRPC as jsonrpc, Error as error
+//@ type JSONRPCNotification
+//@   wire[C03] JSONRPC as jsonrpc
+//@ type TextContent
+//@   wire[C03,C02] Type as type, Text as text
+//@ type ImageContent
+//@   wire[C03,C02] Type as type, Data as data, MimeType as mimeType
+//@ type AudioContent
+//@   wire[C03,C02] Type as type, Data as data, MimeType as mimeType
+//@ type EmbeddedResource
+//@   wire[C03,C02] Type as type, Resource as resource
+//@ type TextResourceContents
+//@   wire[C03,C02] URI as uri, Text as text
+//@ type BlobResourceContents
+//@   wire[C03,C02] URI as uri, Blob as blob
+//@ type CallToolResult
+//@   wire[C03,C02] Content as content
+//@ type ListToolsResult
+//@   wire[C03] Tools as tools
+//@ type ListPromptsResult
+//@   wire[C03] Prompts as prompts
+//@ type ListResourcesResult
+//@   wire[C03] Resources as resources
+//@ type ReadResourceResult
+//@   wire[C03,C02] Contents as contents
+//@ type GetPromptResult
+//@   wire[C03,C02] Messages as messages
+//@ type PromptMessage
+//@   wire[C03,C02] Role as role, Content as content
+//@ type Tool
+//@   wire[C03] Name as name, InputSchema as inputSchema
+//@ type Prompt
+//@   wire[C03] Name as name
+//@ type Resource
+//@   wire[C03] Name as name, URI as uri
+//@ type InitializeResult
+//@   wire[C03,C16] ProtocolVersion as protocolVersion, ServerInfo as serverInfo, Capabilities as capabilities
+//@ type Implementation
+//@   wire[C03,C16] Name as name, Version as version
+//@
+// C01 — a request reaches the stdio transport with the id its client drew from the client's counter (the transport's
+// own fallback counter runs over the same numbers, so two ids in flight could coincide)
+//@ func stdioClientTransport.sendRequest
+//@   callers-checked C01
+//@   requires[C01 a-request-reaches-the-transport-with-the-clients-id] req != nil && !isnil(req.ID)
+//@
+// C10 — what a tool reports is what the notification carries: progress value, message, level reach
+// SendCustomNotification unchanged (entry values)
+//@ func sseNotificationSender.SendProgress
+//@   before call SendCustomNotification#1 assert[C10 progress-and-message-are-forwarded-unchanged] arg1 == "notifications/progress" && ("progress" in arg2) && arg2["progress"] == asany(old(progress)) && ("message" in arg2) && arg2["message"] == asany(old(message))
+//@ func sseNotificationSender.SendLogMessage
+//@   before call SendCustomNotification#1 assert[C10 level-is-forwarded-unchanged] arg1 == "notifications/message" && ("level" in arg2) && arg2["level"] == asany(old(level))
+//@
+// C09 — a response event goes on the wire through the frame writer, from bytes that were encoded before anything
+// of the frame was written (an encoding failure can then never leave half a frame behind)
+//@ func sseResponder.sendSSEEvent
+//@   before call WriteEvent#1 assert[C09 the-response-frame-is-written-whole-from-encoded-bytes] same(arg2.Data, respBytes)
+//@
+// C14 — every server kind hands a non-nil tool with a non-nil handler to the registry (re-registration replaces,
+// everywhere alike)
+//@ ghost stable toolregs int
+//@ func toolManager.registerTool
+//@   counted toolregs
+//@ func Server.RegisterTool
+//@   ensures[C14 every-server-kind-hands-a-valid-registration-to-the-registry] tool != nil && handler != nil ==> toolregs == old(toolregs) + 1
+//@ func SSEServer.RegisterTool
+//@   ensures[C14 every-server-kind-hands-a-valid-registration-to-the-registry] tool != nil && handler != nil ==> toolregs == old(toolregs) + 1
+//@ func StdioServer.RegisterTool
+//@   ensures[C14 every-server-kind-hands-a-valid-registration-to-the-registry] tool != nil && handler != nil ==> toolregs == old(toolregs) + 1
+//@
+// C16 / C14 — the handler a Streamable server dispatches with advertises capabilities from the managers it serves with
+//@ func newMCPHandler
+//@   ensures[C16,C14 lifecycle-manager-wired-to-the-serving-managers] result != nil && result.lifecycleManager.toolManager == result.toolManager && result.lifecycleManager.promptManager == result.promptManager && result.lifecycleManager.resourceManager == result.resourceManager
+//@
+// C19 — an option installs exactly what its caller passed (no normalisation, no defaulting)
+//@ sweepscope[C19] kinds=paramsro files=client.go
+//@ func WithClientPath$1
+//@   ensures[C19 the-configured-path-is-the-callers-path] c.transportConfig.path == path
+//@
+// plain setters used while a handler is being assembled: the managers they are handed may come from option closures
+//@ func lifecycleManager.withResourceManager
+//@   helper
+//@   modifies m.resourceManager
+//@   ensures m.resourceManager == resourceManager && result == m
+//@ func lifecycleManager.withToolManager
+//@   helper
+//@   modifies m.toolManager
+//@   ensures m.toolManager == toolManager && result == m
+//@ func lifecycleManager.withPromptManager
+//@   helper
+//@   modifies m.promptManager
+//@   ensures m.promptManager == promptManager && result == m
 //@
